@@ -364,6 +364,22 @@ fn run_prop(prop: &'static str, thorough: bool) -> Part {
                     }
                 }
             }
+            if (prop == "C11" || prop == "C13") && part.violations.is_empty() {
+                let t = Instant::now();
+                let big = builder::big_builds(prop, thorough, seed());
+                part.stats.evaluations += big.instances;
+                part.stats.executions += big.instances;
+                for h in &big.hashes {
+                    part.stats.nontrivial.insert(*h);
+                }
+                part.extra_samples.extend(big.samples.iter().take(2).cloned());
+                part.engines.push(json!({"engine": "big builds: instances on which one build() performs more than 2^16 (thorough: 2^17) pair look-ups, most conflicting pairs joined directly by a user edge (bipartite writer x reader graphs, windowed clusters)", "instances": big.instances, "max_n": big.max_n, "max_conflicting_pairs": big.max_conflicting_pairs, "all_instances": big.samples, "wall_s": t.elapsed().as_secs_f64()}));
+                if let Some((v, case)) = big.violation {
+                    let f = Failure { check: format!("big-builds:{prop}"), violation: v.clone(), tapes: vec![], decoded: builder::build_decoded(&case) };
+                    let p = write_replay(prop, &f);
+                    part.violations.push((v, p));
+                }
+            }
             let check = BuildCheck::new(prop, thorough, cap);
             part.add_search(prop, &check, cases, workers, &known);
             part.assumptions = vec![
